@@ -140,6 +140,9 @@ class Function:
                 return ("global", nd.get("qn"))
             if dk == "func":
                 return ("func", nd.get("fn"))
+            if "cv" in nd and not nd.get("lv_use"):
+                # a const local with a constant initialiser, read as a value: it *is* that constant
+                return ("const", int(nd["cv"]))
             return ("var", nd.get("n"), nd.get("d"))
         if k == "CXXThisExpr":
             return ("this",)
@@ -164,6 +167,8 @@ class Function:
                     return ("mem", ("this",) if obj == ("this",) else obj, g)
                 if nd.get("fname") in ("size", "length") and (nd.get("mrec") or "").startswith("std::") and not args:
                     return ("size", obj)
+                if nd.get("fname") == "empty" and (nd.get("mrec") or "").startswith("std::") and not args:
+                    return ("op", "==", ("size", obj), ("const", 0))
                 if nd.get("fname") == "max_size" and (nd.get("mrec") or "").startswith("std::") and not args:
                     return ("max_size", nd.get("mrec"))
                 return ("call", fq, obj, args)
@@ -182,7 +187,7 @@ class Function:
             return ("ctor", nd.get("ctor_rec"), args)
         if k in ("BinaryOperator", "CompoundAssignOperator"):
             ks = self.kids(i)
-            return ("op", nd["op"], self.term(ks[0]), self.term(ks[1]))
+            return canon_binop(nd["op"], self.term(ks[0]), self.term(ks[1]), nd.get("is") is False)
         if k == "UnaryOperator":
             ks = self.kids(i)
             op = nd["op"]
@@ -191,6 +196,11 @@ class Function:
                 return a[2]
             if op == "*" and a[0] == "un" and a[1] == "&":
                 return a[2]
+            if op == "!" and a[0] == "op" and a[1] in NEGATED_CMP:
+                # !(x < y) is x >= y; an unsigned size is non-zero exactly when it is positive
+                if a[1] == "==" and a[2][0] == "size" and a[3] == ("const", 0):
+                    return ("op", ">", a[2], a[3])
+                return ("op", NEGATED_CMP[a[1]], a[2], a[3])
             return ("un", op + ("post" if nd.get("postfix") and op in ("++", "--") else ""), a)
         if k == "ArraySubscriptExpr":
             ks = self.kids(i)
@@ -207,6 +217,33 @@ class Function:
         if k == "LambdaExpr":
             return ("lambda", nd.get("lambda_fn"))
         return ("?", k, i)
+
+
+NEGATED_CMP = {"<": ">=", "<=": ">", ">": "<=", ">=": "<", "==": "!=", "!=": "=="}
+
+
+def _log2_exact(v):
+    return v.bit_length() - 1 if isinstance(v, int) and v > 0 and v & (v - 1) == 0 else None
+
+
+def canon_binop(op, a, b, unsigned):
+    """One spelling for arithmetic that has several: on unsigned operands x / 2^k is x >> k, x % 2^k is x & (2^k - 1),
+    (x >> k) * 2^k and (x >> k) << k are x & ~(2^k - 1); size() != 0 is size() > 0."""
+    if unsigned and op in ("/", "%") and b[0] == "const":
+        k = _log2_exact(b[1])
+        if k is not None and k > 0:
+            return ("op", ">>", a, ("const", k)) if op == "/" else ("op", "&", a, ("const", b[1] - 1))
+    if unsigned and op == "*":
+        for x, c in ((a, b), (b, a)):
+            if c[0] == "const" and x[0] == "op" and x[1] == ">>" and x[3][0] == "const":
+                k = _log2_exact(c[1])
+                if k is not None and k == x[3][1]:
+                    return ("op", "&", x[2], ("const", -c[1]))
+    if unsigned and op == "<<" and b[0] == "const" and a[0] == "op" and a[1] == ">>" and a[3] == b:
+        return ("op", "&", a[2], ("const", -(1 << b[1])))
+    if op == "!=" and a[0] == "size" and b == ("const", 0):
+        return ("op", ">", a, b)
+    return ("op", op, a, b)
 
 
 def fmt_term(t):
